@@ -45,7 +45,7 @@ def write_templates(ws, version, stamp):
         os.utime(path, (stamp, stamp))
 
 
-def pipeline(ws, outdir, brs, bs, e1, ey, events):
+def pipeline(ws, outdir, brs, bs, e1, ey, events, cache=None):
     import lena.context
     import lena.flow
     from lena.core import Sequence, Split
@@ -78,8 +78,9 @@ def pipeline(ws, outdir, brs, bs, e1, ey, events):
     cmd = lambda tex, pdf, d, ctx: [os.path.join(ws.bin, "latexstub"), tex, pdf]
     reader = ReadEvents({"data": events})
     write = Write(outdir, verbose=False)
+    head = (reader,) if cache is None else (reader, lena.flow.Cache(cache))
     seq = Sequence(
-        reader,
+        *head + (
         Split(branches, bufsize=None if bs >= 1000 else bs),
         MakeFilename("{{variable.particle.name}}/{{variable.name}}"),
         ToCSV(),
@@ -88,7 +89,7 @@ def pipeline(ws, outdir, brs, bs, e1, ey, events):
         write,
         LaTeXToPDF(create_command=cmd, verbose=0),
         PDFToPNG(verbose=False),
-    )
+    ))
     return seq, reader
 
 
@@ -129,7 +130,7 @@ def decode_pdf(text, outdir):
     return {"tex": decode_tex(tex, outdir)[0], "csv": decode_csv(csv)}
 
 
-def execute_run(ws, outdir, brs, bs, e1, ey, data, tpl):
+def execute_run(ws, outdir, brs, bs, e1, ey, data, tpl, cache=None):
     """One run of the real analysis, observed.  -> dict, or {"raised": name} when lena raised."""
     events = [tuple(tuple(p) for p in ev) for ev in data]
     write_templates(ws, tpl, 1000000 + 10 * tpl)
@@ -137,7 +138,7 @@ def execute_run(ws, outdir, brs, bs, e1, ey, data, tpl):
     outlib._audit["writes"] = []
     outlib._audit["on"] = True
     try:
-        seq, reader = pipeline(ws, outdir, brs, bs, e1, ey, events)
+        seq, reader = pipeline(ws, outdir, brs, bs, e1, ey, events, cache)
         results = list(seq.run(["data"]))
     except Exception as exc:   # noqa
         return {"raised": type(exc).__name__, "exception": repr(exc)}
@@ -219,17 +220,18 @@ def replay_history(rec, root):
     n = 0
     ws = outlib.Workspace(root)
     outdir = os.path.join(root, "output")
-    where = shape(rec["brs"], rec["bs"])
+    where = shape(rec["brs"], rec["bs"]) + (":cache" if rec.get("cache") else "")
+    cache = os.path.join(root, "events.pkl") if rec.get("cache") else None
 
     def fail(kind, j, detail):
         what = "first-run" if j == 0 else "rerun"
         bad.append(("Analysis:%s:%s:%s" % (kind, what, where),
-                    dict(detail, history=[{"data": r["data"], "tpl": r["tpl"]} for r in rec["runs"][:j + 1]],
+                    dict(detail, history=[{"reader": r["src"], "tpl": r["tpl"]} for r in rec["runs"][:j + 1]], cache=bool(cache),
                          branches=rec["brs"], bufsize=rec["bs"])))
 
     with ws.activated():
         for j, run in enumerate(rec["runs"]):
-            obs = execute_run(ws, outdir, rec["brs"], rec["bs"], rec["edges1"], rec["edgesy"], run["data"], run["tpl"])
+            obs = execute_run(ws, outdir, rec["brs"], rec["bs"], rec["edges1"], rec["edgesy"], run["src"], run["tpl"], cache)
             if "raised" in obs:
                 fail("raised:%s" % obs["raised"], j, obs)
                 break
@@ -281,8 +283,8 @@ def replay_history(rec, root):
                                                 "want": sorted(repr(_key(k)) for k in run["launched"])})
                 break
             # ---- the reader was read to the end, no more
-            if obs["pulled"] != len(run["data"]):
-                fail("events-read", j, {"got": obs["pulled"], "want": len(run["data"])})
+            if obs["pulled"] != run["pulled"]:
+                fail("events-read", j, {"got": obs["pulled"], "want": run["pulled"]})
                 break
     shutil.rmtree(root, ignore_errors=True)
     return bad, n
@@ -307,6 +309,8 @@ def record_history(rnd, root):
     data = events(rnd.randint(1, 12))
     tpl = 1
     recs = []
+    usecache = rnd.random() < 0.35
+    cache = os.path.join(root, "events.pkl") if usecache else None
     ws = outlib.Workspace(root)
     outdir = os.path.join(root, "output")
     with ws.activated():
@@ -323,16 +327,16 @@ def record_history(rnd, root):
                     data = events(rnd.randint(1, 12))
                 if tpl == 1 and rnd.random() < 0.3:
                     tpl = 2
-            obs = execute_run(ws, outdir, brs, bs, e1, ey, data, tpl)
+            obs = execute_run(ws, outdir, brs, bs, e1, ey, data, tpl, cache)
             if "raised" in obs:
                 recs.append({"raised": obs["raised"], "exception": obs["exception"], "brs": brs, "bs": bs,
-                             "ed": [e1, ey], "data": data, "tpl": tpl})
+                             "ed": [e1, ey], "src": data, "tpl": tpl, "usecache": usecache})
                 break
             # the order of the results is not fixed for an asynchronous converter: branch order where possible
             order = dict((tuple([b["p"], "2d_xy" if b["c"] == "xy" else b["c"]]), k) for k, b in enumerate(brs))
             out = sorted(obs["out"], key=lambda g: order.get(tuple(g["name"]), 99))
             recs.append({
-                "first": j == 0, "brs": brs, "bs": bs, "ed": [e1, ey], "data": copy.deepcopy(data), "tpl": tpl,
+                "first": j == 0, "brs": brs, "bs": bs, "ed": [e1, ey], "src": copy.deepcopy(data), "tpl": tpl, "usecache": usecache,
                 "files": [{"key": [list(k[0]), k[1]], "c": c} for k, c in sorted(obs["files"].items())],
                 "wrote": [[list(k[0]), k[1]] for k in sorted(obs["wrote"])],
                 "launched": [[list(k[0]), k[1]] for k in sorted(obs["launched"])],
